@@ -204,6 +204,8 @@ type c16World struct {
 	running   int
 	stop      bool
 	inThr     []bool
+	thrCalls  []int
+	getCalls  int
 	thrSeen   []bool
 	inGetB    bool
 	consumerX bool // consumer exited
@@ -348,7 +350,7 @@ func (w *c16World) queued() (control, total int) {
 
 func (w *c16World) check() {
 	e := w.e
-	ctl, total := w.queued()
+	ctl, _ := w.queued()
 	if ctl > w.s.Limit {
 		e.Probe("queue_above_limit")
 	}
@@ -356,28 +358,38 @@ func (w *c16World) check() {
 		if !in {
 			continue
 		}
+		call := w.thrCalls[i]
+		still := func(c func() bool) bool {
+			return simConfirm(func() bool { return w.inThr[i] && w.thrCalls[i] == call && c() })
+		}
+		ctlNow := func() int { n, _ := w.queued(); return n }
 		switch {
-		case w.finEnd != 0:
+		case still(func() bool { return w.finEnd != 0 }):
 			e.Violate("throttle_not_released_by_close", "reader %d is still inside throttle() at quiescence after finish() returned", i)
 			w.stop = true
-		case w.doneCl:
+		case still(func() bool { return w.doneCl }):
 			e.Violate("throttle_not_released_by_done", "reader %d is still inside throttle() at quiescence after the transport's done channel was closed", i)
 			w.stop = true
-		case ctl < w.s.Limit:
-			e.Violate("throttle_lost_wakeup", "reader %d is blocked in throttle() at quiescence while only %d control frames are queued (limit %d)", i, ctl, w.s.Limit)
+		case still(func() bool { return w.finEnd == 0 && !w.doneCl && ctlNow() < w.s.Limit }):
+			e.Violate("throttle_lost_wakeup", "reader %d is blocked in throttle() at quiescence while only %d control frames are queued (limit %d)", i, ctlNow(), w.s.Limit)
 			w.stop = true
-		default:
+		case w.inThr[i] && w.thrCalls[i] == call:
 			w.thrSeen[i] = true
 			e.Probe("reader_throttled")
 		}
 	}
 	if w.inGetB {
+		call := w.getCalls
+		still := func(c func() bool) bool {
+			return simConfirm(func() bool { return w.inGetB && w.getCalls == call && c() })
+		}
+		total := func() int { _, n := w.queued(); return n }
 		switch {
-		case w.doneCl:
+		case still(func() bool { return w.doneCl }):
 			e.Violate("consumer_not_released_by_done", "get(true) still blocked at quiescence after done was closed")
 			w.stop = true
-		case total > 0 && w.finSt == 0:
-			e.Violate("consumer_lost_wakeup", "get(true) blocked at quiescence while %d items are queued", total)
+		case still(func() bool { return total() > 0 && w.finSt == 0 }):
+			e.Violate("consumer_lost_wakeup", "get(true) blocked at quiescence while %d items are queued", total())
 			w.stop = true
 		}
 	}
@@ -397,6 +409,7 @@ func runC16(e *core.Env, s *c16Scenario) {
 	w.cb = newControlBuffer(w.done)
 	w.inThr = make([]bool, len(s.Readers))
 	w.thrSeen = make([]bool, len(s.Readers))
+	w.thrCalls = make([]int, len(s.Readers))
 	quit := make(chan struct{})
 	maxSleep := int64(0)
 	consumerCycle := int64(0)
@@ -417,6 +430,7 @@ func runC16(e *core.Env, s *c16Scenario) {
 			}
 			if ri >= 0 {
 				w.inThr[ri], w.thrSeen[ri] = true, false
+				w.thrCalls[ri]++
 				w.cb.throttle()
 				w.inThr[ri] = false
 				w.progress++
@@ -482,6 +496,7 @@ func runC16(e *core.Env, s *c16Scenario) {
 				case "getb":
 					st := w.now()
 					w.inGetB = true
+					w.getCalls++
 					it, err := w.cb.get(true)
 					w.inGetB = false
 					if err != nil {
